@@ -11,6 +11,7 @@ from sa.interp import Interp, Scenario, Sym, Const, Bytes, render, render_items,
 from sa.templates import C, INT, SYM, Pred, match
 from sa.loader import AnalysisError, dotted
 from sa import tables
+from sa import families
 from sa.timeidiom import check_time_sites, UTC_TIME_FORMS
 
 
@@ -38,6 +39,8 @@ def run(rep, prog, tier):
     rep.rule('C18.2', 'fingerprint terms agree with the exported public-key packet body; packet version is 4', floor=4)
     rep.rule('C18.3', 'publen of each private class resolves to the __len__ of its public sibling', floor=9)
     rep.rule('C18.4', 'key id = last 16 hex digits, short id = last 8; PGPKey.fingerprint delegates to the packet', floor=3)
+    rep.rule('C18.6', 'the public twin is built from copies of the private packet\'s own public terms (so it has the same fingerprint)', floor=20)
+    rep.rule('C18.7', 'issuer key id, issuer fingerprint and recipient key id written are those of the operating key itself', floor=8)
     rep.rule('C18.5', 'creation time is serialised with a UTC-correct idiom wherever it is hashed or exported', floor=2)
     rep.assume('int_to_bytes(x, n) emits max(n, byte_length(x), 1) big-endian octets (pgpy.types.PGPObject; checked under C09)')
 
@@ -146,6 +149,8 @@ def run(rep, prog, tier):
     rets = [render(s.ret) for s in Interp(prog, Scenario(inline=lambda f: False, axioms={'self._key': True})).run(kf)]
     rep.check('self._key.fingerprint' in rets, 'C18.4', 'PGPKey.fingerprint', 'returns %s' % rets,
               'the key object reports the fingerprint of its key packet', where=kf.where, found=rets)
+    families.check_pubkey_derivation(rep, prog, 'C18.6')
+    families.check_ids_rooted_at_self(rep, prog, 'C18.7')
     # C18.5 time idiom
     check_time_sites(rep, prog, 'C18.5', only=('PubKeyV4.fingerprint', 'PubKeyV4.__bytearray__'))
 
